@@ -110,8 +110,9 @@ impl Epoch {
             days.is_finite(),
             "Attempted to initialize Epoch with non finite number"
         );
+        // The day count is read on the calendar of `time_scale`, whose elapsed time starts at its own reference epoch.
         Self {
-            duration: (days - MJD_J1900) * Unit::Day,
+            duration: (days - MJD_J1900) * Unit::Day - time_scale.gregorian_epoch_offset(),
             time_scale,
         }
     }
@@ -147,8 +148,9 @@ impl Epoch {
             days.is_finite(),
             "Attempted to initialize Epoch with non finite number"
         );
+        // The day count is read on the calendar of `time_scale`, whose elapsed time starts at its own reference epoch.
         Self {
-            duration: (days - MJD_J1900 - MJD_OFFSET) * Unit::Day,
+            duration: (days - MJD_J1900 - MJD_OFFSET) * Unit::Day - time_scale.gregorian_epoch_offset(),
             time_scale,
         }
     }
